@@ -30,6 +30,8 @@ CFGS = {
     "par-tsan":   ("RelWithDebInfo", TSAN + " -UNDEBUG", {"PARALLELIZE": "ON"}, "g++"),
     "seq-tsan":   ("RelWithDebInfo", TSAN + " -UNDEBUG", {"PARALLELIZE": "OFF"}, "g++"),
     "par-dbg":    ("Debug", SAN + " -O1", {"PARALLELIZE": "ON"}, "g++"),
+    # line coverage of the library under the checks (tools/coverage.sh); not used by any registered command
+    "cov":        ("Debug", "--coverage -O0", {"BUILD_EXECUTOR": "ON"}, "g++"),
     "fz":         ("Debug", "-fsanitize=fuzzer-no-link,address,undefined -fno-sanitize=vptr -fno-sanitize-recover=all -O1 -g",
                    {}, "clang++"),
 }
